@@ -5,7 +5,7 @@ L1  SymExpand.tla: structural clauses and the Z_n orbit for every n in 1..64 (sy
     half-voxel ties), model-checked as invariants of every case.
 L2  every exact case is replayed: TLC emits, per subunit, the expected orientation (cube element) and complete position
     (lattice) under both admissible starts of the subunit index; the driver compares matrices / lattice positions.
-L3  every n in 1..16 (quick) / 1..64 (thorough) x 'Cn' / 'cn' / n x random real-valued lists (1..100 particles, any
+L3  every n in 1..64 and 122, 197 (both tiers; larger lists for n <= 16 quick / every n thorough) x 'Cn' / 'cn' / n x random real-valued lists (1..100 particles, any
     orientation incl. gimbal lock, any position / shift) x offsets incl. on-axis: per output row the driver logs
     parent, index, id, the nearest element of {Rz(360 j/n)} to R_parent^-1 R_out and integer-scaled residuals;
     SymExpandTrace.tla decides.
@@ -258,8 +258,9 @@ def replay(ctx, case):
 
 def run(ctx):
     ctx.rule = ("L2: every exact case of MC_SymExpand (n in {1,2,4} x 24 parent orientations x 6 offsets x 3 position/shift "
-                "splits, two parents) replayed and compared as cube elements / lattice positions; L3: every n in 1..16 "
-                "(quick) / 1..64 (thorough) x three spellings x random real-valued lists validated by SymExpandTrace.  "
+                "splits, two parents) replayed and compared as cube elements / lattice positions; L3: every n in 1..64 "
+                "and 122, 197 x five spellings (both tiers; larger lists for n <= 16 quick / all n thorough) x random "
+                "real-valued lists validated by SymExpandTrace.  "
                 "distinct = distinct (list, n, spelling, offset) cases")
     ctx.assumptions += [
         "the subunit index may start at 0 or 1 (k-th = R.Rz(360(k-1)/n) or R.Rz(360k/n)); both describe the same orbit",
@@ -284,18 +285,24 @@ def run(ctx):
             run_exact(ctx, r, (ctx.seed * 7919 + i) % 100003)
     if not only or "float" in only:
         rng = random.Random(ctx.seed * 15485863 + 10)
-        nmax = ctx.pick(16, 64)
+        # every order of the property's range (and the larger ones of MC_SymExpand's NDomain) in every spelling, in
+        # both tiers: the count / index clauses must hold for each n, not for a sample of them
+        ndomain = list(range(1, 65)) + [122, 197]
+        nrich = ctx.pick(16, 64)                 # orders that also get larger / repeated lists
         cases = []
         idx = 0
-        for n in range(1, nmax + 1):
+        for n in ndomain:
             for spelling in range(5):
-                for rep in range(ctx.pick(1, 8)):
+                reps = ctx.pick(1, 8) if n <= nrich else 1
+                for rep in range(reps):
                     idx += 1
-                    if rep == 0 and (n + spelling) % 7 == 0:
+                    if n > nrich:
+                        npart = rng.randint(1, 2)
+                    elif rep == 0 and (n + spelling) % 7 == 0:
                         npart = rng.choice([60, 100]) if not ctx.quick else 40
                     else:
                         npart = rng.randint(1, 12)
                     cases.append(gen_float_case(rng, idx, n, spelling, npart))
-        ctx.exhaustive["L3_every_n_1_%d_x_5_spellings" % nmax] = True
+        ctx.exhaustive["L3_every_n_1_64_and_122_197_x_5_spellings"] = True
         ctx.extra["float_cases"] = len(cases)
         run_float(ctx, cases)
